@@ -606,9 +606,9 @@ def finish(m, J, s, raw, spec, props, mf, depth=0, subs_raw=None, alt=None):
     if len(J.samples) < 2: J.samples.append({'tree': obs['tree'], 'source': obs['source'], 'maps': obs['maps']})
 
 
-def tree_job(jid, tree, props=None, what=('source', 'rope', 'buffer', 'size', 'writer', 'c1f0', 'c0f0', 'c1f1', 'c0f1', 'map1', 'map0'), alphabet='q', flavour='mir', witnesses=(), subs=True, alt=None, history=(), history_slots=0, history_ops=('map1', 'map0', 'c1f0', 'c0f0', 'source', 'hash', 'clone'), alt_prop='C13', rope=None):
+def tree_job(jid, tree, props=None, what=('source', 'rope', 'buffer', 'size', 'writer', 'c1f0', 'c0f0', 'c1f1', 'c0f1', 'map1', 'map0'), alphabet='q', flavour='mir', witnesses=(), subs=True, alt=None, history=(), history_slots=0, history_ops=('map1', 'map0', 'c1f0', 'c0f0', 'source', 'hash', 'clone'), alt_prop='C13', rope=None, loop_bound=64):
     # rope='real': rope.rs is interpreted from its MIR as well (no Rope contract) - slower, used for the replay paths that measure ropes
-    idx = api.load(flavour); m = api.machine(idx, loop_bound=64, rope=rope); J = Job(jid, m); J.alt_prop = alt_prop
+    idx = api.load(flavour); m = api.machine(idx, loop_bound=loop_bound, rope=rope); J = Job(jid, m); J.alt_prop = alt_prop
     st = State()
     sym = Sym(st, ALPHA[alphabet])
     root, spec = build(idx, sym, tree, m)
